@@ -1116,3 +1116,28 @@ Proof. split; vm_compute; reflexivity. Qed.
      FunctionalExtensionality.functional_extensionality_dep, Classical_Prop.classic
    (Flocq's binary floats are defined over Coq's reals).  The statement is kept out of Props/Properties_C16.v
    so that every property theorem stays closed under the global context. *)
+
+(** the hypothesis of filter_exact, from a condition on the file: every present min/max of the column is at least as wide
+    as the column's type (always the case for statistics that are true bounds) *)
+Lemma no_fault_of_wide_stats : forall r col op value,
+  col_type r col <> TBoolean -> wf_val (col_type r col) value ->
+  (forall i cs, column_statistics r i col = SOk cs -> cs_has_min_max cs = true ->
+                wf_val (col_type r col) (cs_min cs) /\ wf_val (col_type r col) (cs_max cs)) ->
+  no_fault r col op value.
+Proof.
+  intros r col op value Hnb Wv Hw i f E. unfold row_group_matches in E.
+  destruct (column_statistics r i col) as [cs|c|f'] eqn:Ecs; try discriminate.
+  - fold (col_type r col) in E.
+    destruct (matches_stats (col_type r col) cs op value) as [m|c|f'] eqn:Em; try discriminate.
+    cbn [bind] in E. injection E as ->.
+    exact (matches_stats_no_fault _ cs op value Hnb Wv (Hw i cs Ecs) _ Em).
+  - (* column_statistics never faults *)
+    unfold column_statistics in Ecs.
+    destruct (nth_z (r_row_groups r) i); [|discriminate].
+    destruct ((col <? 0) || (Z.of_nat (length (r_leaf_types r)) <=? col)); [discriminate|].
+    destruct (nth_z l col); [|discriminate].
+    destruct (negb (ch_has_metadata c)); [discriminate|].
+    destruct (ch_stats c); [|discriminate].
+    destruct (nonempty (ps_min_value p)), (nonempty (ps_max_value p)); try discriminate;
+      destruct (nonempty (ps_min_deprecated p)), (nonempty (ps_max_deprecated p)); discriminate.
+Qed.
